@@ -1,0 +1,89 @@
+//go:build verif
+
+// Ghost helpers for contract clauses (build tag verif only). The verifier
+// (/verif/govc) gives __forall / __exists / __old / __same their logical
+// meaning; the bodies below are the executable reading used when a
+// counterexample is replayed: quantifiers range over a finite window.
+
+package utf7
+
+import (
+	"reflect"
+	"unsafe"
+)
+
+var __ghostWindow = []int64{-1, 0, 1, 2, 3, 4, 5, 6, 7, 8, 9, 10, 100, 4095, 4096, 4097, 2147483647, 4294967293, 4294967294, 4294967295}
+
+func __ghostDomain[T any]() []T {
+	var v T
+	rv := reflect.ValueOf(&v).Elem()
+	var out []T
+	switch rv.Kind() {
+	case reflect.Int, reflect.Int8, reflect.Int16, reflect.Int32, reflect.Int64:
+		for _, w := range __ghostWindow {
+			rv.SetInt(w)
+			out = append(out, v)
+		}
+	case reflect.Uint, reflect.Uint8, reflect.Uint16, reflect.Uint32, reflect.Uint64:
+		for _, w := range __ghostWindow {
+			if w >= 0 {
+				rv.SetUint(uint64(w))
+				out = append(out, v)
+			}
+		}
+	default:
+		out = append(out, v)
+	}
+	return out
+}
+
+func __forall[T any](f func(T) bool) bool {
+	for _, v := range __ghostDomain[T]() {
+		if !f(v) {
+			return false
+		}
+	}
+	return true
+}
+
+func __exists[T any](f func(T) bool) bool {
+	for _, v := range __ghostDomain[T]() {
+		if f(v) {
+			return true
+		}
+	}
+	return false
+}
+
+func __old[T any](tok int, x T) T { return x }
+
+func __oldEnter() int { return 0 }
+
+// __same: structural identity of two values (slice headers compare by
+// identity in the verifier; by reflect.DeepEqual when replayed).
+func __same[T any](a, b T) bool { return reflect.DeepEqual(a, b) }
+
+// __base: identity of the backing array of a slice (0 for nil).
+func __base[T any](s []T) uintptr {
+	if cap(s) == 0 {
+		return 0
+	}
+	return uintptr(unsafe.Pointer(&s[:cap(s)][0]))
+}
+
+// __called / __failed: ghost call records maintained by the verifier
+// ("the function reached a call of <name>" / "its last such call returned a
+// non-nil error"); not observable when replayed.
+func __called(name string) bool { return false }
+
+func __failed(name string) bool { return false }
+
+// __fresh: the slice is nil or its backing array was allocated by the
+// function under verification (verifier only).
+func __fresh[T any](s []T) bool { return true }
+
+// __ghost: value of a ghost event counter defined by ghost-inc clauses (verifier only).
+func __ghost(name string) int { return 0 }
+
+// __result: first (integer-like) result of the last recorded call of <name> (verifier only).
+func __result(name string) int { return 0 }
